@@ -379,6 +379,7 @@ func checkMain(args []string) int {
 	var samples []interface{}
 	var hsum []map[string]interface{}
 	states, trans, queries, validated := 0, int64(0), 0, 0
+	xchecked := 0
 	solverS := 0.0
 	funcs := map[string]bool{}
 	knownSeen := map[string]bool{}
@@ -393,7 +394,9 @@ func checkMain(args []string) int {
 		}
 		hs := map[string]interface{}{"name": r.Name, "pkg": r.Pkg, "status": r.Status, "paths": r.Paths, "states": r.States,
 			"instructions": r.Instrs, "queries": r.Queries, "sat": r.Sat, "unsat": r.Unsat, "unknown": r.Unknown,
-			"solver_s": round2(r.SolverS), "wall_s": round2(r.WallS), "reach_markers": keysOf(r.Reached)}
+			"solver_s": round2(r.SolverS), "wall_s": round2(r.WallS), "reach_markers": keysOf(r.Reached),
+			"solver": r.Solver, "cross_checked_queries": r.XChecked, "cross_solver": r.XSecond}
+		xchecked += r.XChecked
 		if r.Error != "" {
 			hs["error"] = firstLine(r.Error)
 		}
@@ -497,6 +500,7 @@ func checkMain(args []string) int {
 			"states": max(states, 1), "transitions": max(int(trans), 1), "traces_validated_against_impl": validated,
 			"samples": samples, "harnesses": hsum, "functions_encoded": fl, "bounds": pc.Bounds,
 			"queries_discharged": queries, "solver_s": round2(solverS), "solver": solver,
+			"queries_cross_checked_by_second_solver": xchecked,
 			"explanation": "states = symbolic states created by forking; transitions = SSA instructions interpreted; every query is a QF_BV(+UF) satisfiability check of path-condition ∧ ¬assertion over all values of the harness's nondeterministic inputs within the stated bounds; traces_validated_against_impl = counterexamples replayed natively",
 		},
 		"assumptions": pc.Assumptions,
